@@ -364,3 +364,171 @@ Proof.
   exists 7, 360, [{| cra := - (1); cdec := 0; cw := 2; cpatch := 0%nat |}], [{| cra := 0; cdec := 0; cw := 3; cpatch := 0%nat |}], 0, (3 # 2).
   split; [apply circle_pos_ext|]. split; [intros a d; apply circle_pos_per; discriminate|]. vm_compute. discriminate.
 Qed.
+
+(* ================================================================== *)
+(* 7. counting over linked patch pairs, catalogs with extents of their own *)
+(* ================================================================== *)
+Section LinkedP.
+  Context {P : Type} (ang : P -> P -> Q).
+  Notation lobj := (lobj P).
+
+  Lemma w_in_filter_far lo hi (f : lobj -> Q * Q) (keep : lobj -> bool) (B : list lobj) :
+    (forall b, In b B -> in_range lo hi (fst (f b)) = true -> keep b = true) ->
+    w_in lo hi (map f (filter keep B)) == w_in lo hi (map f B).
+  Proof.
+    induction B as [|b B IH]; intro H; [reflexivity|].
+    assert (IH' : w_in lo hi (map f (filter keep B)) == w_in lo hi (map f B)).
+    { apply IH. intros x Hx. apply H. right. exact Hx. }
+    cbn [filter]. destruct (keep b) eqn:K.
+    - cbn [map]. change (f b :: map f (filter keep B)) with ([f b] ++ map f (filter keep B)).
+      change (f b :: map f B) with ([f b] ++ map f B). rewrite !w_in_app, IH'. reflexivity.
+    - cbn [map]. change (f b :: map f B) with ([f b] ++ map f B). rewrite w_in_app, IH'.
+      assert (E : in_range lo hi (fst (f b)) = false).
+      { destruct (in_range lo hi (fst (f b))) eqn:E; [|reflexivity].
+        rewrite (H b (or_introl eq_refl) E) in K. discriminate. }
+      unfold w_in at 2. cbn [map qsum]. rewrite E. ring.
+  Qed.
+
+  (* counting over the linked patch pairs only loses nothing when no unlinked patch pair holds a pair in (lo, hi] *)
+  Theorem linked_count_sound link lo hi (A B : list lobj) :
+    (forall a b, In a A -> In b B -> in_range lo hi (ang (lp a) (lp b)) = true -> link (lpatch a) (lpatch b) = true) ->
+    linked_count ang link lo hi A B == count ang lo hi A B.
+  Proof.
+    unfold linked_count, count, lpairs_linked, lpairs.
+    induction A as [|a A IH]; intro H; [reflexivity|].
+    cbn [flat_map]. rewrite !w_in_app. rewrite IH by (intros x b Hx; apply H; right; exact Hx).
+    apply Qplus_comp; [|reflexivity].
+    apply (w_in_filter_far lo hi (fun b => (ang (lp a) (lp b), lw a * lw b))).
+    intros b Hb Hr. apply (H a b (or_introl eq_refl) Hb). exact Hr.
+  Qed.
+
+  Context (ang_sym : forall a b, ang a b == ang b a)
+          (ang_tri : forall a b c, ang a c <= ang a b + ang b c).
+
+  Lemma covers_in c R (A : list lobj) o : covers ang c R A = true -> In o A -> ang (lp o) (c (lpatch o)) <= R (lpatch o).
+  Proof. unfold covers. rewrite forallb_forall. intros H Ho. apply Qleb_le. apply H. exact Ho. Qed.
+
+  (* the symmetric test made from radii that cover both catalogs links every patch pair that holds a counted pair *)
+  Theorem link_sym_sound c R M lo hi (A B : list lobj) :
+    covers ang c R A = true -> covers ang c R B = true -> hi <= M ->
+    forall a b, In a A -> In b B -> in_range lo hi (ang (lp a) (lp b)) = true -> link_sym ang c R M (lpatch a) (lpatch b) = true.
+  Proof.
+    intros HA HB HM a b Ha Hb Hr. apply in_range_spec in Hr as [_ Hr].
+    unfold link_sym. apply Qleb_le.
+    pose proof (covers_in c R A a HA Ha) as Ca. pose proof (covers_in c R B b HB Hb) as Cb.
+    pose proof (ang_tri (c (lpatch a)) (lp a) (c (lpatch b))) as T1.
+    pose proof (ang_tri (lp a) (lp b) (c (lpatch b))) as T2.
+    pose proof (ang_sym (c (lpatch a)) (lp a)) as S1.
+    eapply Qle_trans; [exact T1|]. rewrite S1.
+    eapply Qle_trans; [apply Qplus_le_compat; [exact Ca|exact T2]|].
+    eapply Qle_trans; [apply Qplus_le_compat; [apply Qle_refl|apply Qplus_le_compat; [eapply Qle_trans; [exact Hr|exact HM]|exact Cb]]|].
+    setoid_replace (R (lpatch a) + (M + R (lpatch b))) with (R (lpatch a) + R (lpatch b) + M) by ring. apply Qle_refl.
+  Qed.
+
+  Theorem linked_count_covering c R M lo hi (A B : list lobj) :
+    covers ang c R A = true -> covers ang c R B = true -> hi <= M ->
+    linked_count ang (link_sym ang c R M) lo hi A B == count ang lo hi A B.
+  Proof. intros HA HB HM. apply linked_count_sound. apply (link_sym_sound c R M lo hi A B HA HB HM). Qed.
+
+  (* two measurements of the same objects under other labels, each with centres and radii of its own - taken from
+     whichever catalog is the largest there, enlarged over whichever others - count the same *)
+  Theorem linked_count_relabel_extents pi c R M c' R' M' lo hi (A B : list lobj) :
+    covers ang c R A = true -> covers ang c R B = true -> hi <= M ->
+    covers ang c' R' (map (relabel pi) A) = true -> covers ang c' R' (map (relabel pi) B) = true -> hi <= M' ->
+    linked_count ang (link_sym ang c' R' M') lo hi (map (relabel pi) A) (map (relabel pi) B)
+    == linked_count ang (link_sym ang c R M) lo hi A B.
+  Proof.
+    intros HA HB HM HA' HB' HM'.
+    rewrite (linked_count_covering c' R' M' lo hi _ _ HA' HB' HM'), (linked_count_covering c R M lo hi A B HA HB HM).
+    rewrite count_patch_relabel. reflexivity.
+  Qed.
+
+  (* the measurements of the two parts of a split catalog have geometries of their own (another catalog may be the
+     largest there): the counts still add up *)
+  Theorem linked_count_additive_extents c R M c1 R1 M1 c2 R2 M2 lo hi (A B1 B2 : list lobj) :
+    covers ang c R A = true -> covers ang c R (B1 ++ B2) = true -> hi <= M ->
+    covers ang c1 R1 A = true -> covers ang c1 R1 B1 = true -> hi <= M1 ->
+    covers ang c2 R2 A = true -> covers ang c2 R2 B2 = true -> hi <= M2 ->
+    linked_count ang (link_sym ang c R M) lo hi A (B1 ++ B2)
+    == linked_count ang (link_sym ang c1 R1 M1) lo hi A B1 + linked_count ang (link_sym ang c2 R2 M2) lo hi A B2.
+  Proof.
+    intros HA HB HM HA1 HB1 HM1 HA2 HB2 HM2.
+    rewrite (linked_count_covering c R M lo hi _ _ HA HB HM), (linked_count_covering c1 R1 M1 lo hi _ _ HA1 HB1 HM1),
+            (linked_count_covering c2 R2 M2 lo hi _ _ HA2 HB2 HM2).
+    apply count_additive.
+  Qed.
+  Theorem linked_count_additive_extents_first c R M c1 R1 M1 c2 R2 M2 lo hi (A1 A2 B : list lobj) :
+    covers ang c R (A1 ++ A2) = true -> covers ang c R B = true -> hi <= M ->
+    covers ang c1 R1 A1 = true -> covers ang c1 R1 B = true -> hi <= M1 ->
+    covers ang c2 R2 A2 = true -> covers ang c2 R2 B = true -> hi <= M2 ->
+    linked_count ang (link_sym ang c R M) lo hi (A1 ++ A2) B
+    == linked_count ang (link_sym ang c1 R1 M1) lo hi A1 B + linked_count ang (link_sym ang c2 R2 M2) lo hi A2 B.
+  Proof.
+    intros HA HB HM HA1 HB1 HM1 HA2 HB2 HM2.
+    rewrite (linked_count_covering c R M lo hi _ _ HA HB HM), (linked_count_covering c1 R1 M1 lo hi _ _ HA1 HB1 HM1),
+            (linked_count_covering c2 R2 M2 lo hi _ _ HA2 HB2 HM2).
+    apply count_additive_l.
+  Qed.
+
+  (* the radii the code uses - per patch the farthest object of ANY catalog of the measurement - cover every one of them,
+     whichever is the largest *)
+  Theorem reach_covers c (cats : list (list lobj)) A : In A cats -> covers ang c (reach ang c cats) A = true.
+  Proof.
+    intro HA. unfold covers. apply forallb_forall. intros o Ho. apply Qleb_le. unfold reach.
+    apply qmax_list_ge. apply in_map_iff. exists o. split; [reflexivity|].
+    apply filter_In. split; [|apply Nat.eqb_refl].
+    apply in_concat. exists A. split; assumption.
+  Qed.
+
+  (* an autocorrelation visits a patch pair once, from the lower id: with a symmetric test nothing is lost *)
+  Theorem auto_link_sym_complete c R M i j :
+    link_sym ang c R M i j = true -> (i < j)%nat -> auto_link (link_sym ang c R M) i j = true.
+  Proof. intros H L. unfold auto_link. rewrite H. apply Nat.ltb_lt in L. rewrite L. reflexivity. Qed.
+  Theorem link_sym_symmetric c R M i j : link_sym ang c R M i j = link_sym ang c R M j i.
+  Proof.
+    unfold link_sym.
+    destruct (Qleb (ang (c i) (c j)) (R i + R j + M)) eqn:E1, (Qleb (ang (c j) (c i)) (R j + R i + M)) eqn:E2; try reflexivity.
+    - apply Qleb_le in E1. rewrite ang_sym in E1. setoid_replace (R i + R j + M) with (R j + R i + M) in E1 by ring.
+      apply Qleb_le in E1. congruence.
+    - apply Qleb_le in E2. rewrite ang_sym in E2. setoid_replace (R j + R i + M) with (R i + R j + M) in E2 by ring.
+      apply Qleb_le in E2. congruence.
+  Qed.
+End LinkedP.
+
+Lemma line_ang_sym a b : line_ang a b == line_ang b a.
+Proof. unfold line_ang. setoid_replace (a - b) with (- (b - a)) by ring. apply Qabs_opp. Qed.
+Lemma line_ang_tri a b c : line_ang a c <= line_ang a b + line_ang b c.
+Proof. unfold line_ang. setoid_replace (a - c) with ((a - b) + (b - c)) by ring. apply Qabs_triangle. Qed.
+
+(* the one-sided test - the own radius r of the largest catalog for the patch being linked, the radius R enlarged over all
+   catalogs for the other one - on the line: patches 0 and 1 with centres 0 and 4, the largest catalog within 1 of either
+   centre, a smaller catalog D reaching to 17/10 in patch 0 and to 3 in patch 1 (separation 13/10 <= 16/10 = M = hi).
+   (1) the pair is lost from the cross-correlation counts; (2) the autocorrelation counts it or not depending on which of
+   the two patches carries the lower id; (3) a catalog U that is the largest itself (its own radii are the enlarged ones)
+   counts the pair, its two parts - measured with the radii of another catalog - do not: the counts do not add up.
+   The symmetric test on the same radii counts the pair in all of them. *)
+Theorem link_own_refuted :
+  exists (c c' : nat -> Q) (r R r' R' : nat -> Q) (M lo hi : Q) (D U1 U2 : list (lobj Q)),
+    covers line_ang c R D = true /\ covers line_ang c R (U1 ++ U2) = true /\ hi <= M /\
+    covers line_ang c' R' (map (relabel swap01) D) = true /\
+    (forall i, c' (swap01 i) = c i /\ r' (swap01 i) = r i /\ R' (swap01 i) = R i) /\
+    ~ linked_count line_ang (link_own line_ang c r R M) lo hi D (U1 ++ U2) == count line_ang lo hi D (U1 ++ U2) /\
+    ~ linked_count line_ang (auto_link (link_own line_ang c' r' R' M)) lo hi (map (relabel swap01) D) (map (relabel swap01) D)
+      == linked_count line_ang (auto_link (link_own line_ang c r R M)) lo hi D D /\
+    ~ linked_count line_ang (link_own line_ang c R R M) lo hi D (U1 ++ U2)
+      == linked_count line_ang (link_own line_ang c r R M) lo hi D U1 + linked_count line_ang (link_own line_ang c r R M) lo hi D U2 /\
+    linked_count line_ang (auto_link (link_sym line_ang c' R' M)) lo hi (map (relabel swap01) D) (map (relabel swap01) D)
+      == linked_count line_ang (auto_link (link_sym line_ang c R M)) lo hi D D.
+Proof.
+  pose (o := fun (x w : Q) (k : nat) => {| lp := x; lw := w; lpatch := k |}).
+  exists (fun i => match i with O => 0 | _ => 4 end), (fun i => match i with O => 4 | S O => 0 | _ => 4 end),
+         (fun _ => 1), (fun i => match i with O => 17 # 10 | _ => 1 end),
+         (fun _ => 1), (fun i => match i with O => 1 | S O => 17 # 10 | _ => 1 end),
+         (16 # 10), 0, (16 # 10),
+         [o (17 # 10) 2 0%nat; o 3 3 1%nat], [o 3 5 1%nat], [o 5 7 1%nat].
+  split; [vm_compute; reflexivity|]. split; [vm_compute; reflexivity|]. split; [discriminate|].
+  split; [vm_compute; reflexivity|].
+  split; [intros [|[|i]]; repeat split; reflexivity|].
+  split; [vm_compute; discriminate|]. split; [vm_compute; discriminate|]. split; [vm_compute; discriminate|].
+  vm_compute. reflexivity.
+Qed.
